@@ -1,6 +1,6 @@
 \* thorough, merge / DOT-centred: 2 or 3 types out of {a.A, a.b.B, ab.A, b.a.B, bb.Main, A (unnamed package)}: nested
 \* packages (interior trie nodes), top-level collisions under merge-package, Main as a relation target, x 4 merge
-\* settings x 4 include filters, every order of the relation loop and of the trie insertions
+\* settings x 4 include filters, every order of MergeHeaderFile's relation loop
 SPECIFICATION Spec
 CONSTANTS
   Universe <- U_nested
